@@ -894,6 +894,7 @@ def generate_c14(seed, tier):
            'clock': None, 'threads': r.choice([1, 1, 2, 16])}
     # storage dtype of the class values (building metadata, matching metadata / hypothesis values)
     scn['vdtype'] = rng.stream(seed, 'vdtype').choice(['uint8', 'uint8', 'uint16', 'uint32', 'int16', 'int32'])
+    scn['build_twice'] = rng.stream(seed, 'history').random() < 0.12
     return scn
 
 
@@ -1017,6 +1018,24 @@ def execute_c14(scn):
                                  'rules %s vs %s: templates maxdiff=%s covariance maxdiff=%s' % (scn['build_rule'], scn['build_rule_2'],
                                                                                             compare.maxdiff(att.templates, att2.templates),
                                                                                             compare.maxdiff(att.pooled_covariance, att2.pooled_covariance)))
+        if violation is None and scn.get('build_twice'):
+            # history: build() again on the same attack object.  The builder is a reverse analysis, so a second build accumulates (C02's clause);
+            # a builder that starts afresh would also satisfy C14's statement - either definition is accepted, anything else is not
+            try:
+                att.build()
+                musA, SA, scA = c14_model(np.concatenate([Tb, Tb]), np.concatenate([vb, vb]), classes, Tm, hyp)
+                okA = compare.close(att.templates, musA, tol) and compare.close(att.pooled_covariance, SA, tol)
+                okB = compare.close(att.templates, mus, tol) and compare.close(att.pooled_covariance, S, tol)
+                probes['second_build'] = 1
+                if okA and np.linalg.cond(SA) <= 1e3:
+                    mus, S, sc = musA, SA, scA
+                elif not okB:
+                    violation = viol('second_build_differs_from_model', ['C14', 'second_build_differs_from_model'] + sig_tail,
+                                     'after a second build(): templates maxdiff vs accumulated model %s / vs fresh model %s; covariance %s / %s' % (
+                                         compare.maxdiff(att.templates, musA), compare.maxdiff(att.templates, mus),
+                                         compare.maxdiff(att.pooled_covariance, SA), compare.maxdiff(att.pooled_covariance, S)))
+            except Exception as e:
+                violation = viol('build_raised', ['C14', 'build_raised'] + sig_tail + [type(e).__name__, 'second'], 'second build() raised %r' % (e,))
         if violation is None:
             scared.set_batch_size(scn['match_rule'])
             cuts = [c for c in scn['match_cuts'] if 0 < c < nm]
@@ -1141,7 +1160,7 @@ def _cands_c14(scn):
         c['per_class'] = [2] * len(c['per_class'])
         yield c
     for key, val in (('match_cuts', []), ('probe_before_build', False), ('build_rule', 1000), ('build_rule_2', 1000), ('match_rule', 1000),
-                     ('threads', 1), ('tdtype', 'float32'), ('key', 0), ('vdtype', 'uint8')):
+                     ('threads', 1), ('tdtype', 'float32'), ('key', 0), ('vdtype', 'uint8'), ('build_twice', False)):
         if scn.get(key) != val:
             c = copy.deepcopy(scn)
             c[key] = val
